@@ -24,7 +24,7 @@ from ..algebra import run_trace_leg
 from . import c04
 
 LEVEL = 'model_checking'
-AUTO_PLACEMENTS = ['auto', 'auto_closure', 'auto_attr', 'auto_attr2', 'auto_method', 'auto_param', 'auto_param_method', 'auto_param_nested', 'auto_class_call', 'auto_relay', 'auto_first_unresolvable', 'auto_first_incompatible', 'auto_wraps', 'auto_deco_noop', 'auto_param_default', 'auto_hint', 'auto_hint_partial', 'auto_carrier1', 'auto_carrier2']
+AUTO_PLACEMENTS = ['auto', 'auto_closure', 'auto_attr', 'auto_attr2', 'auto_method', 'auto_param', 'auto_param_method', 'auto_param_nested', 'auto_class_call', 'auto_relay', 'auto_first_unresolvable', 'auto_first_incompatible', 'auto_loop_taint_after', 'auto_compr_shadow', 'auto_wraps', 'auto_deco_noop', 'auto_param_default', 'auto_hint', 'auto_hint_partial', 'auto_carrier1', 'auto_carrier2']
 MINE = ('C05', 'C07')        # clause prefixes this check reports; C06_* clauses of the shared events belong to check C06
 
 
@@ -146,6 +146,9 @@ def make_classify(mine):
     def classify(tid, clause, case):
         # the one-call grid is validated by Trace_Exec, whose execution-soundness clause carries C04's name: for a DISCOVERED signature it is C05's
         if clause == 'C04_AcceptedCallRaisesTypeError' and 'C05' in mine and isinstance(case, dict) and str(case.get('placement', '')).startswith('auto'):
+            # known finding: the walker reads the body once, top to bottom, and gives comprehensions no scope of their own
+            if case.get('placement') in ('auto_loop_taint_after', 'auto_compr_shadow'):
+                return 'star-replaced-between-executions-of-the-call'
             return 'C05_AcceptedCallRaisesTypeError(grid)'
         if not clause.startswith(mine) and not clause.startswith('HARNESS'):
             return 'IGNORE'
